@@ -181,6 +181,17 @@ def shapes(depth: int) -> list[dict]:
     return out
 
 
+def cc_trees() -> list[dict]:
+    """Trees whose inner nodes run under running-concurrency control (one RUNNING execution of that task at a
+    time, blocked ones re-queued): siblings that are waited on but may not start while their sibling waits itself."""
+    c = lambda *kids, call="single": {"fl": "c", "mr": 0, "sc": ["ret", 1], **({"kids": list(kids), "call": call} if kids else {})}  # noqa: E731
+    L = leaf()
+    cs = c(L)
+    root = lambda *kids, call="group": {**leaf(), "kids": list(kids), "call": call}  # noqa: E731
+    return [root(c(), c()), root(cs, cs), root(cs, cs, cs), root(cs, c(), cs), root(cs, cs, cs, cs), root(cs, call="single"),
+            root(cs, cs, call="single"), root(c(L, L, call="group"), cs)]
+
+
 def expected_value(spec: dict) -> int:
     return 1 + sum(expected_value(k) for k in spec.get("kids") or [])
 
@@ -244,9 +255,10 @@ class Scn:
 
 def _tree_name(spec: dict) -> str:
     kids = spec.get("kids") or []
+    me = "c" if spec.get("fl") == "c" else ""
     if not kids:
-        return "L"
-    return f"{spec['call'][0]}({','.join(_tree_name(k) for k in kids)})"
+        return me or "L"
+    return f"{me}{spec['call'][0]}({','.join(_tree_name(k) for k in kids)})"
 
 
 def build(desc: dict) -> Scn:
@@ -285,14 +297,15 @@ def run(ctx: Ctx) -> None:
         for part in par.pmap(_graph_unit, [(nids, f, depth) for f in firsts]):
             ctx.merge(part)
     # --- trees: fixed schedules for all, 1-deviation exploration for a core
-    trees = shapes(2)
+    trees = shapes(2) + cc_trees()
     if not only or "tree" in only:
         fixed = [dict(backend=b, slots=s, spec=t, strategy=st)
                  for b in env.BACKENDS for s in (1, 2) for t in trees for st in ("default", "rr")]
         n = max(1, len(fixed) // 64)
         for part in par.pmap(_fixed_schedule_unit, [fixed[i:i + n] for i in range(0, len(fixed), n)]):
             ctx.merge(part)
-        core_names = {"s(L)", "s(L,L)", "g(L,L)", "s(s(L))", "g(s(L),L)", "s(g(L,L))"} if not ctx.thorough else None
+        core_names = ({"s(L)", "s(L,L)", "g(L,L)", "s(s(L))", "g(s(L),L)", "s(g(L,L))", "g(cs(L),cs(L))", "g(cs(L),cs(L),cs(L))"}
+                      if not ctx.thorough else None)
         core = [t for t in trees if core_names is None or _tree_name(t) in core_names]
         ds = [dict(backend=b, slots=s, spec=t, bound=1)
               for b in ((env.MEM,) if not ctx.thorough else env.BACKENDS) for s in (1, 2) for t in core]
